@@ -92,6 +92,8 @@ func init() {
 		// over four keys, the mirror oracle after every Put
 		c.Cov["rule"] = c.Cov["rule"].(string) + "; LRU part: BFS over Put sequences on four keys with MaxKeys / MaxInuse small enough to evict, N 2-3, R 2-3: after every Put a key that lost its primary copy to the eviction has no backup copy left, every other key's backup copies equal the primary copy"
 		clustermc.RunFamily(c, "C04lru")
+		// primary and backup stores with different histories: writes that land in reused (recycled) tables
+		c04Recycle(c)
 		// concurrent part: a waiting Lock that takes the lock over after the holder's Lease (the write
 		// with an older time stamp than the copy it replaces), every schedule with at most one
 		// preemption (two in thorough), mirror oracle on the final state
